@@ -44,6 +44,11 @@ FeatureChecker::FeatureChecker(Document& document)
 bool FeatureChecker::visitTemplateBefore(template_t& templ)
 {
     // Only check features if template is actually used in the system
+    if (templ.is_instantiated) {
+        // channels may also be declared locally or come in as parameters
+        visitFrame(templ.frame);
+        visitFrame(templ.parameters);
+    }
     return templ.is_instantiated;
 }
 
@@ -166,6 +171,8 @@ void FeatureChecker::visitFrame(const frame_t& frame)
 {
     for (size_t i = 0; i < frame.get_size(); ++i) {
         type_t t = frame.get_symbol(i).get_type();
+        while (t.is_array())  // an array of channels declares channels; get_sub() keeps the prefixes
+            t = t.get_sub();
         if (t.is_channel() && !t.is(Constants::BROADCAST))
             supported_methods.stochastic = false;
     }
